@@ -75,6 +75,10 @@ def r1(ctx):
             errs = [e for e in o.effects if e.name == "on_error"]
             ok = (len(errs) == 0) if reconnecting else (len(errs) == 1 and isinstance(errs[0].args[1], Ref))
             ctx.ob(f"{HD}:on_error:reconnecting={reconnecting}", ok, f"on_error calls {len(errs)}", loc)
+            stopped = "_stop_ping_thread" in [e.name for e in o.effects]
+            ctx.ob(f"{HD}:ping-thread-stopped:reconnecting={reconnecting}", stopped,
+                   "the ping thread is stopped before anything else happens" if stopped else
+                   f"when a {'re-established' if reconnecting else 'first'} connection is lost the ping thread is not stopped: after the next reconnect two ping threads run", loc)
 
 
 @rule("R-C15-2", min_instances=3, title="one transport, one ping thread: old socket shut down before the new one is built; pings started only after connect(), at most once")
@@ -139,7 +143,7 @@ def r3(ctx):
         sc = _scenario(o)
         names = [e.name for e in o.effects]
         # lost connection (frame: error) with keep_running still true -> sleep + second WebSocket()
-        lost = sc.get("connect") == 0 and sc.get("loop") == 0 and sc.get("frame") == 2
+        lost = sc.get("connect") == 0 and sc.get("loop") == 0 and sc.get("frame") in (2, 3)  # end of stream / reset
         if lost:
             n += 1
             if not (names.count("WebSocket()") >= 2 and "sleep" in names and names.index("sleep") < [i for i, x in enumerate(names) if x == "WebSocket()"][1]
